@@ -402,6 +402,7 @@ func generate() {
 		}
 	}
 	generateBig(w, r)
+	generatePaged(w, r)
 	generateMarshal(w, r)
 	generateLegacyRead(w, r)
 }
